@@ -811,6 +811,14 @@ def expand(template_path, repo):
             for o in opts:
                 if o.startswith('attr='):
                     pre.append('#[' + o[5:] + ']')
+                if o == 'vis=pub':
+                    # N1 for items: `pub(crate) enum/struct` -> `pub ...` (Verus generates `open` accessor spec functions for the
+                    # variants' fields and insists that the type be `pub` then; visibility has no run-time meaning)
+                    m1 = re.match(r'\s*pub\(crate\)\s', txt)
+                    if not m1:
+                        raise AnchorLost(f'{rel}: item {name}: option vis=pub but the item is not pub(crate)')
+                    txt = txt[:m1.start()] + txt[m1.start():m1.end()].replace('pub(crate)', 'pub') + txt[m1.end():]
+                    norm.counts['N1_visibility'] += 1
             l0 = cur_line()
             block = '\n'.join(pre + [txt])
             out.append(block)
